@@ -127,7 +127,7 @@ func runDec(entry string, inp []byte, big int, bm string, proj bool) Dec {
 	}
 	var cp *[]byte
 	if inp != nil {
-		c := append([]byte{}, inp...)
+		c := spare(inp)
 		cp = &c
 	}
 	m := nas.NewMessage()
@@ -163,6 +163,17 @@ func runDec(entry string, inp []byte, big int, bm string, proj bool) Dec {
 		}
 	}
 	return e
+}
+
+// spare returns a copy of inp that is a view of a LARGER array: 64 octets of spare capacity behind it, filled with a
+// sentinel.  A decoder that looks at capacity instead of length reads the sentinel as if it were input.
+func spare(inp []byte) []byte {
+	big := make([]byte, len(inp)+64)
+	copy(big, inp)
+	for i := len(inp); i < len(big); i++ {
+		big[i] = 0xA5
+	}
+	return big[:len(inp)]
 }
 
 // disturb: the same input is decoded once more into ANOTHER fresh nas.Message whose every content octet is then inverted.
@@ -341,7 +352,8 @@ type PureD struct {
 func runPureD(entry string, inp []byte) PureD {
 	e := PureD{Op: "PureD", Entry: entry, Inp: ev.Ints(inp), InpAfter: []int{}, InpScr: []int{}, D1: rm.EmptyProj(), DScr: rm.EmptyProj(), DTwice: rm.EmptyProj()}
 	pi := ev.Guard(func() {
-		cp := append([]byte{}, inp...)
+		cp := make([]byte, len(inp)) // capacity = length exactly: nothing behind the input
+		copy(cp, inp)
 		m := nas.NewMessage()
 		err := decodeEntry(m, entry, &cp)
 		e.InpAfter = ev.Ints(cp)
@@ -359,7 +371,7 @@ func runPureD(entry string, inp []byte) PureD {
 		e.InpScr = ev.Ints(cp)
 		interleave()
 		m2 := nas.NewMessage()
-		cp2 := append([]byte{}, inp...)
+		cp2 := spare(inp) // same octets, other memory around them: the result is a function of the octets only
 		if err2 := decodeEntry(m2, entry, &cp2); err2 == nil {
 			e.DTwice = rm.Project(m2)
 			remember(m2)
@@ -416,8 +428,25 @@ func runPureE(c Case) PureE {
 			e.Prefix = ev.Ints(all)
 		}
 		e.After = rm.Project(m)
+		// a second encoding into a buffer that was used before (Reset) and has spare capacity, behind the same prefix: what
+		// encoding appends does not depend on the buffer's history or capacity, and the prefix survives there as well
+		buf2 := new(bytes.Buffer)
+		buf2.Grow(8192)
+		buf2.Write(bytes.Repeat([]byte{0x5a}, 300))
+		buf2.Reset()
+		buf2.Write(pre)
+		var e2 error
+		if m.GmmMessage != nil {
+			e2 = m.GmmMessageEncode(buf2)
+		} else {
+			e2 = m.GsmMessageEncode(buf2)
+		}
+		if all2 := buf2.Bytes(); e2 == nil && len(all2) >= c.Pre && bytes.Equal(all2[:c.Pre], pre) {
+			e.Again = ev.Ints(all2[c.Pre:])
+		} else {
+			e.Again = ev.Ints(all2)
+		}
 		if out2, err2 := m.PlainNasEncode(); err2 == nil {
-			e.Again = ev.Ints(out2)
 			// same shape, different contents: a message built from the same case with every content octet inverted
 			if other, _, berr := rm.Build(c.M, c.Mand, c.Opt); berr == nil {
 				rm.ScribbleMessage(other)
